@@ -36,19 +36,15 @@ def registry_modes(ctx):
         "potential": ("assembly_function_potential", "kernel_functions_regular"),
     }
     got = {}
-    node = [s for s in fn.body if isinstance(s, ast.If)]
-    if not node:
-        raise AnalysisError("select_numba_kernels: mode dispatch vanished")
-    cur = node[-1]
-    while isinstance(cur, ast.If):
-        t = cur.test
-        if isinstance(t, ast.Compare) and isinstance(t.comparators[0], ast.Constant) and unparse(t.left) == "mode":
-            ret = [s for s in cur.body if isinstance(s, ast.Return)]
-            if ret and isinstance(ret[0].value, ast.Tuple) and len(ret[0].value.elts) == 2:
-                a, b = ret[0].value.elts
-                if isinstance(a, ast.Subscript) and isinstance(b, ast.Subscript):
-                    got[t.comparators[0].value] = (unparse(a.value), unparse(b.value), unparse(a.slice), unparse(b.slice), ret[0].lineno)
-        cur = cur.orelse[0] if cur.orelse and isinstance(cur.orelse[0], ast.If) else None
+    # the dispatch is executed for each mode (finite-domain abstract execution; not a match on how the tests are spelled)
+    from .. import dispatch
+
+    mp = fn.args.args[1].arg
+    for mode in want:
+        kind, node = dispatch.select(fn, {mp: mode})
+        if kind == "return" and isinstance(node, ast.Tuple) and len(node.elts) == 2 and all(isinstance(e, ast.Subscript) for e in node.elts):
+            a, b = node.elts
+            got[mode] = (unparse(a.value), unparse(b.value), unparse(a.slice), unparse(b.slice), fn.lineno)
     for mode, (ra, rk) in want.items():
         g = got.get(mode)
         ok = g is not None and g[0] == ra and g[1] == rk and g[2].endswith(".assembly_type") and g[3].endswith(".kernel_type")
